@@ -28,10 +28,14 @@ CLAIMS = {
  'C15': E1('3/C15', 'PFC within the bounds: numElements == n and len_max <= maxLength <= len_max+1 on the fresh and on the reloaded object.', BASE_NOTE),
  'C16': E1('3/C16', 'Unsupported operations return NULL/NORESULT and leave the pattern alone on all 12 default-constructible kinds (symbolic patterns/ranks); every kind\'s loader returns NULL on ANY other tag (all 2^32-1 values) having consumed exactly 4 bytes; generic loader dispatch for all 2^32 tags.', BASE_NOTE),
  'C17': E1('3/C17', 'VByte/VB2 round trip for all 2^32 values; LogSequence set/get for every width 1..64, symbolic positions/values, overwrites, save/load; libcds 32-bit field kernels; DAC_VLS/DAC_BVLS access of every sequence incl. length-1, maximal and last sequence, save/load.', BASE_NOTE),
+ 'C18': E1('3/C18', 'Coder half only: StatCoder::encodeSymbol/encodeString emit, for ANY code table (codeword lengths 1..20 bits, i.e. longer than the 16-bit decoding chunk), any 2-4 symbol string and any start bit offset, exactly the concatenation of the codewords with exact byte count / offset and zero padding; DecodingTree save is repeatable. NOT decided (stated in DESIGN.md): Huffman / Hu-Tucker code construction, DecodingTableBuilder (std::map) and chunked table decoding.', BASE_NOTE),
  'C19': E1('3/C19', 'BitSequenceRG (the bitmap libCSD instantiates) for ALL bitmaps of the listed lengths and sampling factors: access, rank1, rank0, select1, select0, selectNext1 equal their plain definitions; unchanged after save/generic load; BitString. RRR, SDArray, DArray and the wavelet trees are outside solver reach (not claimed).', BASE_NOTE),
 }
 
 NA = {
+ 'C09': 'the real HASHRPDACBlocks constructor + WorkerPool was encoded for the concurrency engine (harness/h_blocks_par.cpp, per-block builder replaced by name) but the smallest instance (1 string, 1 worker, 4 context switches) ran out of memory in propositional reduction after 1 h and the 2-string instance did not finish symbolic execution in 40 min: no verdict within reach (DESIGN.md 3/C09). The pool protocol it relies on is decided under C10',
+ 'C11': 'a happens-before race monitor over every load/store of the thread code was out of budget on the C10 formulas (6-8 M SAT variables without it); the lock-misuse assertions that the schedule model does check are reported under C10, and the pre-emption reduction used there assumes race freedom (DESIGN.md 3/C11)',
+ 'C20': 'the Re-Pair compressor (IRePair: 65536-entry pair hash, heap of frequency lists, float growth factors) gave no verdict in 28 min on a 4-symbol sequence and a whole-kind RPDAC encoding with a model compressor gave none in 1 h; the grammar consumers are exercised only through the DAC units of C17 (DESIGN.md 3/C20)',
  'C05': 'substring search exists only in FMINDEX and XBW, whose answers depend on suffix sorting, BWT, wavelet trees and the XBW trie: none of that construction code is encodable within solver reach (DESIGN.md section 3/C05); the duplicate-skipping ID iterator is verified under C13',
 }
 
